@@ -174,6 +174,8 @@ def main():
     ap.add_argument("--seed", type=int, default=1)
     ap.add_argument("--files", nargs="*", default=FILES)
     ap.add_argument("--out", default=os.path.join(HERE, "mutants", "RESULTS.jsonl"))
+    ap.add_argument("--survivors", help="SUITE.jsonl of mutation_prefilter.py:"
+                    " run the checks on its suite survivors only")
     args = ap.parse_args()
     rng = random.Random(args.seed)
     sites = []
@@ -196,6 +198,22 @@ def main():
             break
     print("%d mutation sites in %s; sampling %d" % (len(sites), args.files,
                                                     len(chosen)), flush=True)
+    if args.survivors:
+        done = set()
+        if os.path.exists(args.out):
+            for line in open(args.out):
+                r = json.loads(line)
+                done.add((r["file"], tuple(r["site"])))
+        chosen = []
+        for line in open(args.survivors):
+            r = json.loads(line)
+            key = (r["file"], tuple(r["site"]))
+            if r["status"] == "survives-suite" and key not in done:
+                chosen.append((r["file"], tuple(r["site"]), 1))
+                done.add(key)
+        rng.shuffle(chosen)
+        chosen = chosen[:args.n]
+        print("%d suite survivors to run" % len(chosen), flush=True)
     os.makedirs(os.path.dirname(args.out), exist_ok=True)
     for k, (fn, site, _) in enumerate(chosen):
         wt = tempfile.mkdtemp(prefix="vmut.")
